@@ -53,10 +53,15 @@ def snapshot_context(context: Context) -> Context:
     for ctx_dict_index in reversed(range(len(context.dicts))):
         ctx_dict = context.dicts[ctx_dict_index]
 
-        # This layer is already copied, reuse this and all before it
+        # This layer is already copied, so its forloop data is frozen, same as for all layers before it.
         if isinstance(ctx_dict, CopiedDict):
             # NOTE: +1 because we want to include the current layer
-            dicts_with_copied_forloops = context.dicts[: ctx_dict_index + 1] + dicts_with_copied_forloops
+            # NOTE: We still make (shallow) copies of these layers, because tags like `{% firstof ... as var %}`
+            #       or `{% now ... as var %}` assign into an existing layer. Without a copy, a variable set
+            #       AFTER a `{% component %}` tag would be seen by that component, which is rendered later.
+            dicts_with_copied_forloops = [
+                CopiedDict(d) for d in context.dicts[: ctx_dict_index + 1]
+            ] + dicts_with_copied_forloops
             break
 
         # Copy the dict
